@@ -83,7 +83,18 @@ def generate(rng, tier):
                 txt += "ignore = [%s]\n" % ", ".join('"%s"' % p for p in pats)
             files[os.path.join(d, rng.choice(["rustfmt.toml", ".rustfmt.toml"]))] = txt
     mode = rng.choice(MODES)
-    return {"world": {"files": files}, "inputs": inputs, "mode": list(mode), "hashseed": rng.below(1 << 32),
+    # overlapping inputs: the same file named twice, or a leaf module file also named as an input of its own
+    overlap = None
+    if rng.chance(20):
+        i = rng.below(len(inputs))
+        leafs = [f for f in inputs[i]["files"][1:]]
+        if leafs and rng.chance(50):
+            f = rng.choice(leafs)
+            overlap = {"root": f, "files": [f], "kind": inputs[i]["kind"], "dir": os.path.dirname(f), "overlap": True}
+        else:
+            overlap = dict(inputs[i]); overlap["overlap"] = True
+        mode = rng.choice([MODES[1], MODES[2]])  # stdout / check: whole-output comparison
+    return {"world": {"files": files}, "inputs": inputs, "mode": list(mode), "overlap": overlap, "hashseed": rng.below(1 << 32),
             "permseed": rng.below(1 << 32), "cli": rng.choice([[], [], ["--config", "max_width=90"], ["--edition", "2021"]])}
 
 
@@ -300,6 +311,25 @@ def execute(case):
                     if ab:
                         v.add("C15:abnormal|%s" % ab, "under an injected write error: status=%s" % res.status())
                     v.probe("io-error-on-earlier-input")
+        # (f) overlapping inputs: every input is processed on its own terms, however often a file was covered before
+        ov = case.get("overlap")
+        if ov and mode in ("stdout", "check"):
+            sc.fresh_world(world)
+            ro = core.run_inv(sc, {"argv": ["--color", "never"] + list(margs) + list(case["cli"]) + [ov["root"]], "hashseed": case["hashseed"]})
+            v.account(ro, nontrivial=False)
+            for pos in (0, n):
+                idx = list(range(n))
+                args = [inputs[k]["root"] for k in idx]
+                args.insert(pos, ov["root"])
+                sc.fresh_world(world)
+                rm = core.run_inv(sc, {"argv": ["--color", "never"] + list(margs) + list(case["cli"]) + args, "hashseed": case["hashseed"]})
+                v.account(rm)
+                parts = [single[k][0].stdout for k in idx]
+                parts.insert(pos, ro.stdout)
+                if rm.stdout != b"".join(parts) and not core.abnormal(rm):
+                    v.add("C15:overlapping-inputs|%s" % mode, "argv=%s: stdout is not the concatenation of the single-input outputs (%d vs %d bytes)" % (args, len(rm.stdout), len(b"".join(parts))))
+                    break
+            v.probe("overlapping-inputs")
         # (c) hash seeds
         for k in (1, 2, 3):
             res, pf, muts, argv = run(list(perms[0]), seed=(case["hashseed"] * 31 + k * 104729) & 0xFFFFFFFF)
